@@ -240,6 +240,14 @@ func (r *aggregatorRole) ProcessTemplates(workflowRepo repos.IRepo, loadSubworkf
 		r.Enabled = "false"
 	}
 
+	// An aggregator with no critical descendant has no opinion on the state of its parent: only
+	// critical roles forward their state, so nothing would ever replace the initial STANDBY.
+	if !r.IsCritical() {
+		r.state.mu.Lock()
+		r.state.state = sm.INVARIANT
+		r.state.mu.Unlock()
+	}
+
 	return
 }
 
